@@ -819,6 +819,31 @@ def _install_mf_ops():
         like = ta if not ta.scalar else tb
         return SymTensor(lam(lambda i: z3.If(fa(i) <= fb(i), fa(i), fb(i))), dtype=like.dtype, shape=like._shape)
 
+    def where(self_, cond, a, b):
+        """torch.where(condition, a, b) for a SCALAR condition (a Python / symbolic bool or a one-element tensor): If(cond, a, b)."""
+        from .sym import SymBool
+        if isinstance(cond, SymTensor):
+            if not cond.scalar:
+                raise ShadowAbort("torch.where with a non-scalar condition tensor")
+            c = cond.item() != 0
+        else:
+            c = cond
+        ct = c.t if isinstance(c, SymBool) else z3.BoolVal(bool(c))
+        ta = a if isinstance(a, SymTensor) else SymTensor.real_scalar(a)
+        tb = b if isinstance(b, SymTensor) else SymTensor.real_scalar(b)
+        fa, fb = ta.fn(), tb.fn()
+        if ta.scalar and tb.scalar:
+            return SymTensor(z3.If(ct, fa(0), fb(0)), dtype=ta.dtype, scalar=True)
+        like = ta if not ta.scalar else tb
+        return SymTensor(lam(lambda i: z3.If(ct, fa(i), fb(i))), dtype=like.dtype, shape=like._shape)
+
+    def allclose(self_, a, b, rtol=1e-05, atol=1e-08, equal_nan=False):
+        """torch.allclose: an uninterpreted predicate of the two arrays and the tolerances (NOT equality: nothing relates it to any_nonzero)."""
+        from .sym import SymBool
+        return SymBool(uf(f"allclose_rtol{rtol}_atol{atol}", ARR, ARR, z3.BoolSort())(_arr(a), _arr(b)))
+
+    FakeTorch.allclose = allclose
+    FakeTorch.where = where
     FakeTorch.min = tmin
     FakeTorch.minimum = minimum
     FakeTorch.zeros_like = lambda self_, t: SymTensor(z3.RealVal(0), dtype=t.dtype, scalar=True) if t.scalar else SymTensor(z3.K(z3.IntSort(), z3.RealVal(0)), dtype=t.dtype, shape=t._shape)
